@@ -285,6 +285,9 @@ type c18Case struct {
 	// protein: uniform frequencies) and used once (a P(t) is computed) before it is initialised with the
 	// parameters of the case: the matrices must be those of the new parameters
 	Reinit bool `json:"reinit,omitempty"`
+	// Default: the model object is used as its constructor returns it, without InitModel; the parameters
+	// of the case are the documented defaults (K2P: kappa 1; F84: kappa 1, frequencies 1/4)
+	Default bool `json:"default_constructed,omitempty"`
 }
 
 // c18TMin is the smallest positive normal double, a legal branch length t>=0.
@@ -490,6 +493,9 @@ func c18Tasks(tier string) []mc.Task {
 		}
 		pending = append(pending, c18Case{Model: "gtr", Par: []float64{0.2, 1, 3, 1, 0.2, 3}, Pi: piv, T: T, Reinit: true})
 	}
+	// models used as their constructors return them (documented defaults)
+	pending = append(pending, c18Case{Model: "k2p", Par: []float64{1}, T: T, Default: true})
+	pending = append(pending, c18Case{Model: "f84", Par: []float64{1}, Pi: []float64{0.25, 0.25, 0.25, 0.25}, T: T, Default: true})
 	for _, name := range c18ProtNames {
 		for i := range tags {
 			if ppis[i] != nil {
@@ -824,7 +830,9 @@ func (k *c18Checker) build() bool {
 				m.InitModel(0.3)
 				c18Use(m)
 			}
-			m.InitModel(cs.Par[0])
+			if !cs.Default {
+				m.InitModel(cs.Par[0])
+			}
 			k.m = m
 		case "f81":
 			m := dna.NewF81Model()
@@ -840,7 +848,9 @@ func (k *c18Checker) build() bool {
 				m.InitModel(0.3, .4, .1, .3, .2)
 				c18Use(m)
 			}
-			m.InitModel(cs.Par[0], cs.Pi[0], cs.Pi[1], cs.Pi[2], cs.Pi[3])
+			if !cs.Default {
+				m.InitModel(cs.Par[0], cs.Pi[0], cs.Pi[1], cs.Pi[2], cs.Pi[3])
+			}
 			k.m = m
 		case "tn93":
 			m := dna.NewTN93Model()
@@ -1179,6 +1189,9 @@ func c18Check(c *mc.Ctx, cs c18Case) {
 	if cs.Reinit {
 		label += "+reinitialised"
 	}
+	if cs.Default {
+		label += "+default-constructed"
+	}
 	k := &c18Checker{c: c, cs: cs, o: o, label: label, family: "dna-eigen",
 		raised: map[string]bool{}, implC: map[float64]c18M{}, oraC: map[float64]c18M{}, litC: map[float64]c18M{}, maxDev: map[string]float64{}}
 	if o.n == 20 {
@@ -1383,6 +1396,8 @@ func init() {
 			}
 			c18Check(c, cs)
 		},
+		// free-running complement: goroutines that each own their model objects (see harness/racepass)
+		Post: func(m *mc.Master) { m.RacePass("models") },
 		Vacuity: func(tier string, t *mc.Totals) error {
 			if t.Evaluations < 300000 {
 				return fmt.Errorf("only %d transition matrices evaluated", t.Evaluations)
